@@ -22,4 +22,18 @@ EncodeShape == HexEncodeOut(b) = <<48, 120>> \o HexLower(b) \o <<10>> /\ HexDeco
 Corruptions ==
   /\ \A k \in 1..Len(Digits) : HexDecodeClass((IF prefix THEN <<48, 120>> ELSE <<>>) \o [Digits EXCEPT ![k] = 103]).c = "reject"
   /\ (Len(Digits) > 0 => HexDecodeClass((IF prefix THEN <<48, 120>> ELSE <<>>) \o Tail(Digits)).c = "reject")
+\* the run-length classification agrees with the classification of the expanded text
+RlPieces == {<<>>, <<48, 120>>, <<97, 98>>, <<97>>, <<103>>, <<32, 97>>, <<97, 10, 98>>, <<48, 88>>, <<48>>, <<200>>}
+RlAgrees ==
+  \A pre \in RlPieces, pat \in RlPieces, tail \in RlPieces, rep \in 0..3 :
+    LET rl == [pre |-> pre, pat |-> pat, rep |-> rep, tail |-> tail]
+        a  == HexDecodeClassRL(rl).c
+        e  == HexDecodeClass(RlExpand(rl)).c
+    IN  (a = "reject" => e = "reject") /\ (a = "open" \/ a = "reject")
+ASSUME RlAgrees          \* (a constant statement: evaluated once, not in every state)
+\* ... and it is not vacuous: both refusals (a stray character, an odd count) and acceptable texts occur among them
+ASSUME \E pre \in RlPieces, pat \in RlPieces, tail \in RlPieces :
+         HexDecodeClassRL([pre |-> pre, pat |-> pat, rep |-> 3, tail |-> tail]).c = "reject" /\ ~AllHex(tail)
+ASSUME \E pre \in RlPieces, pat \in RlPieces :
+         HexDecodeClassRL([pre |-> pre, pat |-> pat, rep |-> 3, tail |-> <<>>]).c = "reject" /\ AllHex(pat) /\ Len(pre) = 2
 =============================================================================
